@@ -3,6 +3,13 @@
 //   level (connection or stream) = (window, available, in_flight):  window = credit the peer still has,
 //   available = window + released-but-unannounced, in_flight = handed out and not released.
 //   I-recv-pool: available + in_flight == target (the configured size).
+// Under contract here (each with its own comment): the window functions (recv_data on every exit, consume / release_*,
+// set_target_connection_window, clear_recv_buffer, release_closed_capacity, apply_local_settings), the announcers
+// (send_pending_refusal, send_connection_window_update, send_stream_window_updates, buffer_pending), the message functions
+// (recv_headers against a decision list, recv_trailers, recv_push_promise, State::recv_open / reserve_remote), the teardown
+// functions (recv_eof, handle_error, recv_reset), the application-side polls (poll_response / poll_data / poll_trailers /
+// poll_informational, OpaqueStreamRef::poll_data), the queue drains (clear_queues and its three loops,
+// clear_expired_reset_streams), and from streams.rs Inner::recv_data.
 use vstd::prelude::*;
 use vstd::std_specs::cmp::*;
 use std::cmp::{self, Ordering};
@@ -59,9 +66,40 @@ impl QueueAccept {
         },
     { unimplemented!() }
 }
+/// std::time::Instant / Duration as numbers (nanoseconds); `now()` is unconstrained
+#[derive(Clone, Copy)]
+pub struct Instant { pub t: u64 }
+#[derive(Clone, Copy)]
+pub struct Duration { pub d: u64 }
+impl Instant {
+    #[verifier::external_body]
+    pub fn now() -> (r: Instant) { unimplemented!() }
+    /// Instant::saturating_duration_since
+    pub fn saturating_duration_since(&self, earlier: u64) -> (r: Duration)
+        ensures r.d == (if self.t >= earlier { (self.t - earlier) as u64 } else { 0u64 }),
+    { Duration { d: if self.t >= earlier { self.t - earlier } else { 0 } } }
+}
+impl Duration {
+    /// `a > b` on Durations
+    pub fn gt(&self, other: &Duration) -> (r: bool) ensures r == (self.d > other.d) { self.d > other.d }
+}
+
 /// store::Queue<NextResetExpire>: locally reset streams waiting for their grace period to end
 pub struct QueueResetExpire { pub ghost_len: usize }
 impl QueueResetExpire {
+    #[verifier::external_body]
+    pub fn is_empty(&self) -> (r: bool) ensures r == (self.ghost_len == 0) { unimplemented!() }
+    /// Queue::pop_if (its real body: unit v_store_queue): the front is popped iff the predicate holds for it.  A queued
+    /// stream carries its flag — for this queue: `reset_at` is Some (NextResetExpire::is_queued)
+    #[verifier::external_body]
+    pub fn pop_if<F: Fn(&Stream) -> bool>(&mut self, store: &mut RStore, f: F) -> (r: Option<Stream>)
+        requires forall|s: &Stream| s.reset_at is Some ==> #[trigger] f.requires((s,)),
+        ensures match r {
+            Some(s) => old(self).ghost_len > 0 && final(self).ghost_len == old(self).ghost_len - 1 && final(store).held() == old(store).held() + 1
+                && (exists|s0: &Stream| s0.reset_at is Some && #[trigger] f.ensures((s0,), true)),
+            None => final(self).ghost_len == old(self).ghost_len && final(store).held() == old(store).held(),
+        },
+    { unimplemented!() }
     #[verifier::external_body]
     pub fn pop(&mut self, store: &mut RStore) -> (r: Option<Stream>)
         ensures match r {
@@ -286,6 +324,7 @@ pub struct Recv {
     pub is_extended_connect_protocol_enabled: bool,
     pub pending_accept: QueueAccept,
     pub pending_reset_expired: QueueResetExpire,
+    pub reset_duration: Duration,
 }
 
 /// A received DATA frame, reduced: payload length and padding (frame::Data<Bytes> in /repo; `flow_controlled_len`
@@ -579,6 +618,32 @@ impl Recv {
     //@spec             } else {
     //@spec                 final(counts).admitted@ == old(counts).admitted@ && final(stream).is_counted == old(stream).is_counted && final(self).last_processed_id == old(self).last_processed_id
     //@spec             }),
+    //@end
+
+    // C18 / C19: locally reset streams are remembered for a grace period (`reset_duration`) so that frames the peer sent
+    // before it saw our RST_STREAM can be ignored — and no longer: every stream at the FRONT of the expiry queue whose grace
+    // period is over is taken off and transitioned (released); the loop stops at the first one that is not yet due (the queue
+    // is in reset order); the `expect("reset_at must be set if in queue")` cannot fail (a queued stream carries its timestamp).
+    // Listed substitutions: `Instant` / `Duration` are numbers; the closure gets the contract Verus needs; `a > b` on
+    // Durations => `a.gt(&b)`.
+    //@extract src/proto/streams/recv.rs Recv::clear_expired_reset_streams
+    //@attr #[verifier::exec_allows_no_decreases_clause]
+    //@subst store: &mut Store=>store: &mut RStore
+    //@subst_re \|stream\| \{ ==>> |stream: &Stream| -> (b: bool) requires stream.reset_at is Some ensures b == ((if now.t >= stream.reset_at->Some_0 { (now.t - stream.reset_at->Some_0) as u64 } else { 0u64 }) > reset_duration.d) {
+    //@subst let reset_at = stream.reset_at.expect("reset_at must be set if in queue");=>assert(stream.reset_at.is_some()); let reset_at = stream.reset_at.unwrap();
+    //@subst now.saturating_duration_since(reset_at) > reset_duration=>now.saturating_duration_since(reset_at).gt(&reset_duration)
+    //@subst_opt_re counts\.transition_after\(stream, true\); ==>> counts.transition_after_drained(stream, true, store);
+    //@spec     ensures
+    //@spec         final(store).held() == old(store).held(),
+    //@spec         *final(self) == (Recv { pending_reset_expired: final(self).pending_reset_expired, ..*old(self) }),
+    //@spec         // as many streams are released as left the queue; never more than were queued
+    //@spec         final(counts).drained@ + final(self).pending_reset_expired.ghost_len == old(counts).drained@ + old(self).pending_reset_expired.ghost_len,
+    //@spec         final(self).pending_reset_expired.ghost_len <= old(self).pending_reset_expired.ghost_len,
+    //@loop 0     invariant
+    //@loop 0         store.held() == old(store).held(),
+    //@loop 0         *self == (Recv { pending_reset_expired: self.pending_reset_expired, ..*old(self) }),
+    //@loop 0         counts.drained@ + self.pending_reset_expired.ghost_len == old(counts).drained@ + old(self).pending_reset_expired.ghost_len,
+    //@loop 0         self.pending_reset_expired.ghost_len <= old(self).pending_reset_expired.ghost_len,
     //@end
 
     // C19 / C07, end of the connection: the three receive-side queues are DRAINED — every stream on them is taken off
